@@ -190,6 +190,8 @@ def install(lib, np_):
       return VBool(True)
     if isinstance(x, (VNone, VFunc, VInt, VReal, VBool)):
       return VBool(False)
+    if isinstance(x, VRef) and x.types is not None:
+      return VBool('arraylike' in x.types)
     if isinstance(x, VRef):
       t = z3.Function('is_arraylike', Ref, z3.BoolSort())(x.t)
       cx.p.assume(z3.Implies(x.t == NONE_REF, z3.Not(t)))
